@@ -264,9 +264,17 @@ def _value_driven_names(fn: FuncInfo) -> Set[str]:
     tainted: Set[str] = set()
     for n in ast.walk(fn.node):
         if isinstance(n, ast.While) and any(isinstance(x, ast.Subscript) for x in ast.walk(n.test)):
+            # names the test itself bounds by a comparison with a plain name / expression without subscripts (`i < n and a[i] == ...`)
+            conj = n.test.values if isinstance(n.test, ast.BoolOp) and isinstance(n.test.op, ast.And) else [n.test]
+            guarded = set()
+            for c in conj:
+                if isinstance(c, ast.Compare) and len(c.ops) == 1 and not any(isinstance(x, ast.Subscript) for x in ast.walk(c)):
+                    for side in (c.left, c.comparators[0]):
+                        if isinstance(side, ast.Name):
+                            guarded.add(side.id)
             for b in n.body:
                 for x in ast.walk(b):
-                    if isinstance(x, ast.Name) and isinstance(x.ctx, ast.Store):
+                    if isinstance(x, ast.Name) and isinstance(x.ctx, ast.Store) and x.id not in guarded:
                         tainted.add(x.id)
     for _ in range(4):
         for n in ast.walk(fn.node):
@@ -352,10 +360,12 @@ def analyse_helper(prog: Program, call: Call, nb_contract: bool) -> List[Dict[st
         for lid, inv in inv_by_loop.items():
             for _, E in inv:
                 f.add(("ge0", E))
+        if f.infeasible_strong():
+            continue  # a path the loop invariants rule out
         for e in s.trace:
-            if e.kind != "index" or id(e) in seen:
+            if e.kind != "index":
                 continue
-            seen.add(id(e))
+            # (an event of the common prefix of two paths is judged on each of them: the facts that follow differ)
             base_idx, new = e.value
             cur = tuple(base_idx)
             for k, c in enumerate(new):
@@ -554,3 +564,187 @@ def rule_hall_precondition(ctx: Ctx, prog: Program) -> None:
     else:
         ctx.ok("R-HALL-PRECOND", "compute_domains_gcc: every bound is moved off zero-capacity values (failure when they cross) before ranking",
                sample={"paths_reaching_update_bounds": n_reach})
+
+
+# ------------------------------------------------------------------------------------------ generic modular analysis (call chains)
+def _len_in_caller(it: Interp, f: Facts, st: State, av: View) -> Optional[Aff]:
+    """Length (first axis) of an array argument, in the caller's terms; None when it cannot be expressed."""
+    shp = _shape_of(it, st, av.root)
+    base = shp[0] if shp is not None else Aff.atom(("len", av.root, ()))
+    if not av.idx:
+        return base
+    if len(av.idx) == 1 and isinstance(av.idx[0], tuple) and av.idx[0][0] == "slice":
+        lo = av.idx[0][1] if isinstance(av.idx[0][1], Aff) else ZERO
+        hi = av.idx[0][2] if isinstance(av.idx[0][2], Aff) else base
+        g = f.copy()
+        g.add(cmp_cond(">=", base, ZERO))
+        if g.decide(cmp_cond("<=", hi, base)) is True and g.decide(cmp_cond(">=", lo, ZERO)) is True and g.decide(cmp_cond("<=", lo, hi)) is True:
+            return hi - lo
+    return None
+
+
+def derive_call_facts(it: Interp, f: Facts, st: State, e: Event, callee: FuncInfo) -> List[Tuple]:
+    """What the caller establishes about the callee's parameters at this call site, from a candidate set of order relations between
+    the callee's scalar parameters, the lengths of its array parameters and the constant 0."""
+    arrs = _array_params(callee)
+    qs: List[Tuple[Aff, Aff]] = []  # (callee quantity, caller value)
+    for pn, a in zip(callee.params, e.args):
+        av = as_view(a)
+        if pn in arrs and isinstance(av, View):
+            L = _len_in_caller(it, f, st, av)
+            if L is not None:
+                qs.append((Aff.atom(("len", pn, ())), L))
+        elif pn not in arrs:
+            v = it.value_at(st, e.hpos, a)
+            if isinstance(v, Aff):
+                qs.append((_init(pn), v))
+    out: List[Tuple] = []
+    g = f.copy()
+    for q, v in qs:
+        if g.decide(cmp_cond(">=", v, ZERO)) is True:
+            out.append(cmp_cond(">=", q, ZERO))
+    for i, (q1, v1) in enumerate(qs):
+        for j, (q2, v2) in enumerate(qs):
+            if i == j:
+                continue
+            if g.decide(cmp_cond("<", v1, v2)) is True:
+                out.append(cmp_cond("<", q1, q2))
+            elif g.decide(cmp_cond("<=", v1, v2)) is True:
+                out.append(cmp_cond("<=", q1, q2))
+    return out
+
+
+def analyse_under(prog: Program, fn: FuncInfo, facts: List[Tuple]) -> Tuple[List[Dict[str, Any]], Dict[str, List[List[Tuple]]]]:
+    """Sites of `fn` analysed under `facts` (no inlining) + for every callee the facts derived at each of its call sites."""
+    it = Interp(prog, inline_filter=_never)
+    it.track_index = True
+    st0 = State()
+    for c in facts:
+        st0.facts.add(c)
+    res = it.run(fn, state=st0)
+    loops: List[LoopSummary] = []
+    for r in res:
+        for l in _all_loops(r.state.trace):
+            if l not in loops:
+                loops.append(l)
+    arrs = _array_params(fn)
+    scalars = [_init(p) for p in fn.params if p not in arrs]
+    inv_all: List[Tuple[str, Aff]] = []
+    for l in loops:
+        pre_vals: Dict[str, Aff] = {}
+        for nm in l.assigned:
+            v0 = l.pre_env.get(nm)
+            if isinstance(v0, (Aff, Dual)) or (isinstance(v0, View) and not v0.idx and v0.root in fn.params and v0.root not in arrs):
+                pv = it.scalar(State(), v0)
+                if _shape_only(pv, set(fn.params)) or pv.is_const():
+                    pre_vals[nm] = pv
+        if pre_vals:
+            inv_all.extend(inductive(it, l, st0.facts, pre_vals, default_candidates(l, pre_vals, scalars[:3], triples=False)))
+    vdn = _value_driven_names(fn)
+    paths: List[PathResult] = list(res)
+    for l in loops:
+        paths.extend(l.paths)
+    sites: Dict[Tuple[int, int], Dict[str, Any]] = {}
+    calls: Dict[str, List[List[Tuple]]] = {}
+    seen = set()
+    seen_calls = set()
+    for pr in paths:
+        s = pr.state
+        f = s.facts.copy()
+        for _, E in inv_all:
+            f.add(("ge0", E))
+        if f.infeasible_strong():
+            continue  # a path the loop invariants rule out (e.g. 'left the scan with i > n')
+        for e in s.trace:
+            if e.kind == "call" and e.name and id(e) not in seen_calls:
+                seen_calls.add(id(e))
+                bare = e.name.split(":")[-1]
+                rs = prog.resolve(fn.module, bare) if "." not in bare else None
+                if rs and rs[0] == "func" and rs[1].njit and len(rs[1].params) == len(e.args):
+                    calls.setdefault(rs[1].fq, []).append(derive_call_facts(it, f, s, e, rs[1]))
+            if e.kind != "index":
+                continue
+            # (an event of the common prefix of two paths is judged on each of them: the facts that follow differ)
+            base_idx, new = e.value
+            cur = tuple(base_idx)
+            for k, c in enumerate(new):
+                if not isinstance(c, Aff):
+                    cur = cur + (c,)
+                    continue
+                if c.is_const():
+                    cur = _advance(cur, c)
+                    continue
+                key = (id(e.node), k)
+                src = ast.unparse(e.node) if e.node is not None else "?"
+                rec = sites.setdefault(key, {"function": fn.name, "expr": src, "axis": k, "line": getattr(e.node, "lineno", 0), "verdicts": set(),
+                                             "index": show_val(c), "extent": "?", "shape_only": _shape_only(c, set(fn.params), vdn)})
+                ext = _extent2(it, s, e.root, cur)
+                verdict = "unproved"
+                if ext is not None:
+                    rec["extent"] = show_val(ext)
+                    lo = f.decide(cmp_cond(">=", c, ZERO))
+                    hi = f.decide(cmp_cond("<", c, ext))
+                    if lo is True and hi is True:
+                        verdict = "proved"
+                    else:
+                        rec["why"] = ("lower bound " if lo is not True else "") + ("upper bound" if hi is not True else "")
+                rec["verdicts"].add(verdict)
+                cur = _advance(cur, c)
+    out = []
+    for rec in sites.values():
+        v = rec.pop("verdicts")
+        rec["verdict"] = "proved" if v == {"proved"} else "unproved"
+        out.append(rec)
+    return out, calls
+
+
+CHAINS = [("propagators.lexicographic_leq_propagator", "compute_domains_lexicographic_leq")]
+
+
+def rule_call_chains(ctx: Ctx, prog: Program) -> None:
+    """R-SCRATCH for propagators written as a chain of jitted helpers (lexicographic_leq: entry -> state 1 -> state 2 -> states 3/4): each
+    function is analysed on its own under the order relations its callers establish between its scalar parameters and the lengths of its
+    array parameters (intersection over all call sites); every shape index must be provably inside its array."""
+    ctx.rule("R-SCRATCH")
+    n_proved = 0
+    for mod, name in CHAINS:
+        entry = prog.func(f"{prog.package}.{mod}", name)
+        pre: Dict[str, List[Tuple]] = {entry.fq: []}
+        fns: Dict[str, FuncInfo] = {entry.fq: entry}
+        order = [entry.fq]
+        done: Set[str] = set()
+        # callers before callees: the chain is a DAG; a callee is analysed once all its (discovered) callers have been
+        pending_sites: Dict[str, List[List[Tuple]]] = {}
+        guard = 0
+        while order and guard < 40:
+            guard += 1
+            fq = order.pop(0)
+            if fq in done:
+                continue
+            fn = fns[fq]
+            ctx.fn(fn.fq)
+            recs, calls = analyse_under(prog, fn, pre.get(fq, []))
+            done.add(fq)
+            for rec in recs:
+                inst = f"{fn.module.split('.')[-1]}.{rec['function']}:{rec['expr']}#{rec['axis']}"
+                if rec["verdict"] == "proved":
+                    n_proved += 1
+                    ctx.ok("R-SCRATCH", inst, sample={"index": rec["index"], "extent": rec["extent"], "assumed": [show_cond(c) for c in pre.get(fq, [])][:6]} if n_proved <= 2 else None)
+                elif rec["shape_only"]:
+                    ctx.violation("R-SCRATCH", fn.path, rec["function"], f"{_norm(rec['expr'])}#{rec['axis']}", f"{fn.path}:{rec['line']}",
+                                  f"{rec['function']}: the index of {rec['expr']} ({rec['index']}) is not provably within the extent {rec['extent']} under what its "
+                                  f"callers establish ({', '.join(show_cond(c) for c in pre.get(fq, [])[:8])}): {rec.get('why', 'unproved')}. Compiled code performs no bounds check")
+                else:
+                    ctx.undecided_site("R-SCRATCH", inst, f"index read from an array ({rec['index']})")
+            for cfq, site_facts in calls.items():
+                callee = prog.func(cfq.split(":")[0], cfq.split(":")[1])
+                fns[cfq] = callee
+                for sf in site_facts:
+                    if cfq not in pre:
+                        pre[cfq] = list(sf)
+                    else:
+                        pre[cfq] = [c for c in pre[cfq] if c in sf]
+                if cfq not in done and cfq not in order:
+                    order.append(cfq)
+    ctx.floor("R-SCRATCH:chain-shape-sites-proved", n_proved, 30)
+    ctx.extra["chain_sites_proved"] = n_proved
